@@ -33,6 +33,8 @@ def obligations(tier):
         for plen in (0, 1, 2):
             add("check_if_branch_exist(p) iff some stored key starts with p", "h_exist", "b_exist", klens=klens, plen=plen)
         add("get_trie_nodes == nodes reachable from the root", "h_nodes", "b_nodes", klens=klens)
+        if klens in ([1], [1, 1]):
+            add("get_trie_nodes == nodes reachable from the root (32-byte values, which may equal a node hash)", "h_nodes", "b_nodes", klens=klens, vlen=32)
     for klens in ([1, 1], [2, 2]) if tier == "quick" else ([1, 1], [2, 2], [1, 2], [1, 1, 1]):
         for plen, slen in ((1, 0), (1, 1), (0, 1), (2, 0)):
             add("witness for a prefix: only trie nodes, sufficient for every key below the prefix", "h_witness", "b_witness", klens=klens, plen=plen, slen=slen)
